@@ -6,9 +6,9 @@ CONSTANTS
   StartStates <- AllStarts
   MaxRetries = 2
   DeadlineFails = TRUE
-  AsImplemented = TRUE
-  CorruptIgnoresMeta = FALSE
+  AsImplemented = FALSE
+  CorruptIgnoresMeta = TRUE
   MayRelease = TRUE
 INVARIANTS Safe HolderOwnsLock LiveResidentKept
-
+PROPERTIES Usable
 CHECK_DEADLOCK FALSE
